@@ -2,14 +2,16 @@ module verifharness
 
 go 1.19
 
-require github.com/aml-org/amf-custom-validator v0.0.0
+require (
+	github.com/aml-org/amf-custom-validator v0.0.0
+	github.com/open-policy-agent/opa v0.47.0
+)
 
 require (
 	github.com/OneOfOne/xxhash v1.2.8 // indirect
 	github.com/agnivade/levenshtein v1.1.1 // indirect
 	github.com/ghodss/yaml v1.0.0 // indirect
 	github.com/gobwas/glob v0.2.3 // indirect
-	github.com/open-policy-agent/opa v0.47.0 // indirect
 	github.com/piprate/json-gold v0.4.0 // indirect
 	github.com/pkg/errors v0.9.1 // indirect
 	github.com/pquerna/cachecontrol v0.0.0-20180517163645-1555304b9b35 // indirect
